@@ -124,3 +124,42 @@ Proof. vm_compute. reflexivity. Qed.
 (* space and tab are spaces (formatSQL's indentation is removed again by TrimSpace) *)
 Lemma space_32_9 : space 32 = true /\ space 9 = true /\ space 10 = true.
 Proof. vm_compute. repeat split. Qed.
+
+(* ---- refutations of the full preservation statement on the faithful model: concrete witnesses, evaluated (lib/c17.py
+        replays each witness on the implementation) ---- *)
+Definition rcode (v : list vtok) : list N :=
+  flat_map (fun x => match x with VW => [0] | VC n => [1; n] | VL c => 2 :: cp c :: raw c end)%N v.
+Ltac refute w := exists (decode w); let H := fresh "H" in (intro H; apply (f_equal rcode) in H; vm_compute in H; discriminate H).
+(* trailing blanks inside a multi-line string literal are removed *)
+Lemma refuted_l001 : exists t, reading space upper (l001_fix t) <> reading space upper t.
+Proof. refute ([120; 32; 39; 97; 32; 32; 10; 98; 39]%N). Qed.
+(* a leading tab on the second line of a string literal becomes four spaces *)
+Lemma refuted_l002 : exists t, reading space upper (l002_fix t) <> reading space upper t.
+Proof. refute ([39; 97; 10; 9; 98; 39]%N). Qed.
+(* a blank line inside a string literal is removed *)
+Lemma refuted_l003 : exists t, reading space upper (i_l003_fix t) <> reading space upper t.
+Proof. refute ([39; 97; 10; 10; 10; 98; 39]%N). Qed.
+(* repeated spaces on the second line of a string literal are collapsed *)
+Lemma refuted_l010_string : exists t, reading space upper (l010_fix t) <> reading space upper t.
+Proof. refute ([39; 97; 10; 98; 32; 32; 99; 39]%N). Qed.
+(* repeated spaces on the second line of a back-quoted identifier are collapsed *)
+Lemma refuted_l010_backtick : exists t, reading space upper (l010_fix t) <> reading space upper t.
+Proof. refute ([96; 97; 10; 98; 32; 32; 99; 96]%N). Qed.
+(* a keyword on the second line of a string literal is upper-cased *)
+Lemma refuted_l007_string : exists t, reading space upper (i_l007_fix t) <> reading space upper t.
+Proof. refute ([39; 97; 10; 115; 101; 108; 101; 99; 116; 39]%N). Qed.
+(* a keyword on the second line of a back-quoted identifier is upper-cased *)
+Lemma refuted_l007_backtick : exists t, reading space upper (i_l007_fix t) <> reading space upper t.
+Proof. refute ([96; 97; 10; 115; 101; 108; 101; 99; 116; 96]%N). Qed.
+(* repeated spaces inside a block comment are collapsed *)
+Lemma refuted_l010_block_comment : exists t, reading space upper (l010_fix t) <> reading space upper t.
+Proof. refute ([120; 32; 47; 42; 32; 97; 32; 32; 98; 32; 42; 47]%N). Qed.
+(* a keyword inside a block comment is upper-cased *)
+Lemma refuted_l007_block_comment : exists t, reading space upper (i_l007_fix t) <> reading space upper t.
+Proof. refute ([120; 32; 47; 42; 32; 115; 101; 108; 101; 99; 116; 32; 42; 47]%N). Qed.
+(* the CLI loop applies all of the above *)
+Lemma refuted_cli : exists t, reading space upper (i_cli_fix t) <> reading space upper t.
+Proof. refute ([39; 97; 32; 32; 10; 10; 10; 9; 115; 101; 108; 101; 99; 116; 32; 32; 120; 39]%N). Qed.
+(* formatSQL trims the lines of a multi-line string literal *)
+Lemma refuted_format : exists t, reading space upper (i_format 2 true false t) <> reading space upper t.
+Proof. refute ([39; 97; 10; 32; 32; 98; 39]%N). Qed.
